@@ -2,6 +2,8 @@ import DimodProofs.Aggregate
 import DimodProofs.Slice
 import DimodProofs.Stack
 import DimodProofs.SampleSetMore
+import DimodProofs.AsSamplesDispatch
+import DimodProofs.SortStable
 
 /-! # C14 — sample-set operations move whole rows and columns and never alter data
 
@@ -418,5 +420,129 @@ example : (SS.mk [.str "a"] [⟨[1], 0, 1, []⟩] .spin []).appendVec "nv" [[1],
 example : ((chainObject [.relabel [(.str "a", .str "b")] false, .changeVt .binary (1/2) true]
       (some (.fut false (SS.mk [.str "a"] [⟨[1], 0, 1, []⟩, ⟨[-1], 1, 1, []⟩] .spin []) []))).bind LSS.resolve)
     = some (SS.mk [.str "b"] [⟨[1], 1/2, 1, []⟩, ⟨[0], 3/2, 1, []⟩] .binary []) := by decide +kernel
+
+
+/-! ## round 7: `as_samples` overload by overload (`DimodModel/AsSamplesDispatch.lean`), concrete `np.unique` / stable `np.argsort` -/
+
+open SSM.Dispatch in
+/-- **every accepted form, every nesting** (dict, list of dicts, generator, `(array_like, labels)`, `(dict, labels)`,
+    SampleSet, 0/1/2-d array-likes, lists of rows, iterators of any of these, any `dtype` / `copy` / `order` /
+    `labels_type`): whenever `as_samples` returns, the labels are distinct, there is one row per row the input denotes,
+    every row is as wide as the labels and holds, under every label, the value the input gives that label in that row -/
+theorem as_samples_every_form (f : Form) (args : Args) (o : Out) (hc : f.Clean) (h : run args f = .ok o) :
+    o.labels.Nodup ∧ o.rows.length = f.denote.length ∧
+    ∀ (j : Nat) (row : List Rat) (d : List (Label × Rat)), o.rows[j]? = some row → f.denote[j]? = some d →
+      row.length = o.labels.length ∧ ∀ v ∈ o.labels, cell o.labels row v = lookup d v := by
+  have hg := run_good f args o hc h
+  exact ⟨hg.1, hg.2.length, fun j row d hr hd => hg.2.get j row d hr hd⟩
+
+open SSM.Dispatch in
+/-- **the same values for equivalent inputs in every accepted form**: two inputs (of any two forms, under any two
+    argument sets) that denote the same table come back with the same number of rows and, under every common label, the
+    same value in every row -/
+theorem as_samples_all_forms_agree (f g : Form) (a b : Args) (o p : Out) (hf : f.Clean) (hg : g.Clean)
+    (h1 : run a f = .ok o) (h2 : run b g = .ok p) (hlen : f.denote.length = g.denote.length)
+    (hsame : ∀ (j : Nat) d e, f.denote[j]? = some d → g.denote[j]? = some e → ∀ v, lookup d v = lookup e v) :
+    o.rows.length = p.rows.length ∧
+    ∀ (j : Nat) (r s : List Rat), o.rows[j]? = some r → p.rows[j]? = some s →
+      ∀ v, v ∈ o.labels → v ∈ p.labels → cell o.labels r v = cell p.labels s v := by
+  obtain ⟨_, hl1, hv1⟩ := as_samples_every_form f a o hf h1
+  obtain ⟨_, hl2, hv2⟩ := as_samples_every_form g b p hg h2
+  refine ⟨by rw [hl1, hl2, hlen], ?_⟩
+  intro j r s hr hs v hvo hvp
+  have hj : j < f.denote.length := by rw [← hl1]; exact (List.getElem?_eq_some_iff.mp hr).1
+  have hj' : j < g.denote.length := by rw [← hlen]; exact hj
+  have hd := List.getElem?_eq_getElem hj
+  have he := List.getElem?_eq_getElem hj'
+  rw [(hv1 j r _ hr hd).2 v hvo, (hv2 j s _ hs he).2 v hvp]
+  exact hsame j _ _ hd he v
+
+open SSM.Dispatch in
+/-- `copy` and `order` are passed through every overload and read by none of them: the result is the same array -/
+theorem as_samples_copy_order_irrelevant (f : Form) (args : Args) (cp ord : Bool) :
+    run { args with copy := cp, fOrder := ord } f = run args f :=
+  run_congr f _ _ rfl rfl
+
+open SSM.Dispatch in
+/-- the accepted label containers: `labels_type=Variables` gives the labels of `labels_type=list` whenever the input's
+    own label lists have no repetitions (with repetitions `Variables` drops them and the tuple overload refuses) -/
+theorem as_samples_tuple_labels_type (a : ArrLike) (labels : List Label) (args : Args) (hnd : labels.Nodup) :
+    (run { args with labelsVariables := true } (.tuple a labels)).toOption.map (fun o => (o.rows, o.labels)) =
+    (run { args with labelsVariables := false } (.tuple a labels)).toOption.map (fun o => (o.rows, o.labels)) := by
+  simp only [run, tupleTail, sampleArray_congr a { args with labelsVariables := true } { args with labelsVariables := false } rfl,
+    asLabels_of_nodup _ _ hnd]
+  split
+  · rfl
+  · split
+    · split <;> rfl
+    · split <;> rfl
+
+open SSM.Dispatch in
+/-- **`append_variables` with ANY samples-like** (mapping of constants, another SampleSet, list of dicts, generator, `(array, labels)` …):
+    whenever it returns, `as_samples` accepted the input with distinct labels and rows that carry, label by label, the values the input
+    denotes, and the result is `append_variables` of exactly those labels and rows — so `append_variables_frame` /
+    `append_variables_raises_iff` speak about every form -/
+theorem append_variables_every_form (s : SS) (f : Form) (sortLabels : Bool) (s' : SS) (hc : f.Clean)
+    (h : appendVariablesForm s f sortLabels = some s') :
+    ∃ o, run {} f = .ok o ∧ s.appendVars o.labels o.rows sortLabels = some s' ∧ o.labels.Nodup ∧ o.rows.length = f.denote.length ∧
+      ∀ (j : Nat) (row : List Rat) (d : List (Label × Rat)), o.rows[j]? = some row → f.denote[j]? = some d →
+        row.length = o.labels.length ∧ ∀ v ∈ o.labels, cell o.labels row v = lookup d v := by
+  unfold appendVariablesForm at h
+  split at h
+  · rename_i o ho
+    obtain ⟨h1, h2, h3⟩ := as_samples_every_form f {} o hc ho
+    exact ⟨o, ho, h, h1, h2, h3⟩
+  · cases h
+
+/-- **`np.argsort(kind='stable')` of the model is stable** (`IsSortingPerm` alone leaves the order of ties open): of two
+    positions whose keys are in order the earlier one comes first, so `truncate` / `slice` / `first` / `samples(sorted_by=…)`
+    are determined also among equal keys -/
+theorem argsort_concrete_stable (keys : List Rat) (i j : Nat) (hij : i < j) (hj : j < keys.length)
+    (hle : keys[i]'(Nat.lt_trans hij hj) ≤ keys[j]) : List.Sublist [i, j] (argsort keys) :=
+  argsort_stable keys i j hij hj hle
+
+/-- **the concrete `np.unique(axis=0, return_index=True, return_inverse=True)`** that `aggregate_model_spec` runs on: distinct
+    rows in lexicographic order, satisfying the contract, `indices[k]` the FIRST position of `u[k]` in the input -/
+theorem np_unique_concrete (xs : List (List Rat)) :
+    (npUnique xs).u.Pairwise (fun a b => lexLe a b = true) ∧ UniqueSpec xs (npUnique xs) ∧
+    (∀ (k i : Nat), (npUnique xs).indices[k]? = some i → xs[i]? = (npUnique xs).u[k]? ∧ ∀ j < i, xs[j]? ≠ (npUnique xs).u[k]?) :=
+  npUnique_concrete xs
+
+/-- `lowest` / `first` / `truncate(sorted_by)` run on the concrete stable `argsort`: no assumed specification is left -/
+theorem sorted_selection_concrete (rows : List Row) (k : Key) :
+    IsSortingPerm (· ≤ ·) (rows.map (·.key k)) (argsort (rows.map (·.key k))) ∧
+    ∀ (i j : Nat) (hij : i < j) (hj : j < (rows.map (·.key k)).length),
+      (rows.map (·.key k))[i]'(Nat.lt_trans hij hj) ≤ (rows.map (·.key k))[j] → List.Sublist [i, j] (argsort (rows.map (·.key k))) :=
+  ⟨argsort_isSortingPerm _, fun i j hij hj hle => argsort_stable _ i j hij hj hle⟩
+
+section examples
+open SSM.Dispatch
+
+/-- which exception a call raises -/
+def errOf (r : Except Err Out) : Option Err := match r with | .error e => some e | .ok _ => none
+
+/-- list of dicts in differing key orders, generator of `(row, labels)` pairs and a sample set next to a dict: one table -/
+example : (run {} (.sequence [.mapping [(.str "a", 3), (.str "b", 1)] false, .mapping [(.str "b", 1), (.str "a", 3)] false])).toOption
+    = some ⟨[[3, 1], [3, 1]], 2, .int8, [.str "a", .str "b"], false⟩ := by decide +kernel
+example : (run {} (.iterator [.tuple ⟨.py .int64, .d1 [3, 1]⟩ [.str "a", .str "b"], .sampleset [.str "b", .str "a"] [[1, 3]] .int32])).toOption
+    = some ⟨[[3, 1], [3, 1]], 2, .int32, [.str "a", .str "b"], false⟩ := by decide +kernel
+/-- the smallest integer type: `-128` needs `int16` (the code compares `-min` with `iinfo.max`), `-2^63` fits no candidate -/
+example : (run {} (.array ⟨.py .int64, .d1 [-128, 5]⟩)).toOption.map (·.dtype) = some .int16 := by decide +kernel
+example : errOf (run {} (.array ⟨.py .int64, .d1 [-9223372036854775808]⟩)) = some .value := by decide +kernel
+/-- refusals: a repeated label under `labels_type=Variables`, rows over different variables, `(iterator, labels)` -/
+example : errOf (run { labelsVariables := true } (.tuple ⟨.py .int64, .d1 [1, 2]⟩ [.str "a", .str "a"])) = some .value := by decide +kernel
+example : errOf (run {} (.iterator [.mapping [(.str "a", 1)] false, .mapping [(.str "b", 1)] false])) = some .value := by decide +kernel
+example : errOf (run {} (.tupleIterator [])) = some .type := by decide +kernel
+/-- the generated source facts the model is written over: the four candidates in ascending order, `<=`, the exact `max_`
+    (the repaired `-int(arr.min(...))`), the four registered overloads in the order of the model's `Form` dispatch -/
+example : intCandidates = [.int8, .int16, .int32, .int64] := by decide +kernel
+example : Generated.SampleArray.candidateTestIsLe = true ∧ Generated.SampleArray.maxComputedExactly = true := by decide +kernel
+example : Generated.SampleArray.registered.map (·.1) = ["Iterator", "Mapping", "tuple", "SampleSet"] := by decide +kernel
+/-- the hypotheses of `as_samples_every_form` are met by a nested input -/
+example : (Form.iterator [.sequence [.mapping [(.str "a", 1)] false], .tuple ⟨.nd .int8, .d2 [[2]] 1⟩ [.str "a"]]).Clean := by
+  simp [Form.Clean, Form.CleanAll]
+/-- equal keys keep their order: position 0 comes before position 2 -/
+example : List.Sublist [0, 2] (argsort [2, 1, 2, 1]) := argsort_concrete_stable _ 0 2 (by decide) (by decide) (by decide +kernel)
+end examples
 
 end C14
